@@ -41,7 +41,7 @@ func tierArg() string {
 
 func decoderBudget(tier string) time.Duration {
 	if tier == "thorough" {
-		return 6 * time.Minute
+		return 5 * time.Minute
 	}
 	return 45 * time.Second
 }
@@ -115,11 +115,11 @@ func main() {
 			"every truncation of valid packets, 20-25 digit ack ids, packet types 3,4,7-9 and header shapes the alphabet cannot spell), each as the first frame of a fresh parser; a packet that asks for attachments is completed with every combination of {binary, text} frames up to 2 " +
 			"and, with maxAttachments=2, must be refused or complete within 2 frames; every finished packet is decoded against 5 handler signature families (sio.Binary, map[string]any, any, struct with a Binary field, no args; CONNECT also *json.RawMessage) through one decode closure. " +
 			"An evaluation is one (frame sequence, family) pair or one frame sequence that yields no packet, or one execution of the process half. distinct_nontrivial = distinct first frames that got past the first-byte check (decoded, asked for attachments, or failed later) + deviating schedules of the process half. " +
-			"process half: the shortest input of every decoder outcome class plus hand-picked inputs, sent to a live sio.Server over a harness-implemented eio socket (ACKs also with a matching outstanding emit per callback family, CONNECTs also as first packet), and a selection sent by a live server to a live Go client over the in-process polling link; all schedules with at most 1 (quick) / 2 (thorough, server side) deviations",
+			"process half: the shortest input of every decoder outcome class plus hand-picked inputs, sent to a live sio.Server over a harness-implemented eio socket (ACKs also with a matching outstanding emit per callback family, CONNECTs also as first packet), and a selection sent by a live server to a live Go client over the in-process polling link; all schedules with at most 1 (quick) / 2 (thorough) deviations after the connection set-up",
 		Scenarios: scenarios,
 		Budget: func(tier string) time.Duration {
 			if tier == "thorough" {
-				return 5 * time.Minute
+				return 6 * time.Minute
 			}
 			return 40 * time.Second
 		},
